@@ -23,7 +23,7 @@ def check(cx):
 
     fan = M.fanouts()
     r1 = cx.rule('R10.1', 'delivery condition equivalence', floor=1, kind='equivalence')
-    r2 = cx.rule('R10.2', 'channel fan-outs guarded by the delivery condition', floor=6, kind='required-guard')
+    r2 = cx.rule('R10.2', 'channel fan-outs guarded by the delivery condition', floor=2, kind='required-guard')
     all_members = [x for x in fan if x[3] is None and x[2] is not None]
     if not all_members:
         r1.violation('process_privmsg_notice|no-all-members-fanout', 'no fan-out over the channel member map', loc=M.fn)
